@@ -79,9 +79,25 @@ class ModRef:
     name: str  # repo module name or 'ext:<dotted>'
 
 
-@dataclass
+@dataclass(frozen=True)
 class TypeRef:
     names: tuple  # python type tags accepted by isinstance
+
+
+def really_unhashable(k: Any, node=None):
+    """The exception to raise when hashing ``k`` failed inside the analyser: Python's own TypeError
+    only when the key holds a list / dict / set; otherwise the analyser's objects are the obstacle."""
+
+    def bad(x):
+        if isinstance(x, (list, dict, set)):
+            return True
+        if isinstance(x, (tuple, frozenset)):
+            return any(bad(y) for y in x)
+        return False
+
+    if bad(k):
+        return PyExc("TypeError", ("unhashable",), node)
+    return AnalysisError(f"key {k!r} holds an analyser object that cannot be hashed")
 
 
 class Inst:
@@ -417,7 +433,8 @@ class Frame:
             else:
                 self.exec_block(st.orelse)
         elif isinstance(st, ast.For):
-            it = self.iterate(self.eval(st.iter))
+            itv = self.eval(st.iter)
+            it = _LiveList(itv) if isinstance(itv, list) else self.iterate(itv)
             broke = False
             tnames = {n.id for n in ast.walk(st.target) if isinstance(n, ast.Name)}
             for item in it:
@@ -738,6 +755,14 @@ class Frame:
             return TypeRef(("Token",))
         if full in ("lark.Tree", "lark.tree.Tree", "Tree"):
             return TypeRef(("Tree",))
+        if full == "re":
+            return ModRef("ext:re")
+        if full.startswith("re.") and full[3:] in ("compile", "sub", "subn", "match", "search", "fullmatch", "findall", "split", "escape", "finditer"):
+            return FuncRef(None, builtin=full)
+        if full.startswith("re.") and full[3:] in ("I", "IGNORECASE", "S", "DOTALL", "M", "MULTILINE", "X", "VERBOSE"):
+            import re as _re
+
+            return int(getattr(_re, full[3:]))
         if full == "numbers":
             return ModRef("ext:numbers")
         if full == "numbers.Number":
@@ -766,6 +791,10 @@ class Frame:
 
     def getattr(self, obj: Any, name: str, node: ast.AST | None = None) -> Any:
         I = self.I
+        if name == "__name__" and isinstance(obj, TypeRef) and len(obj.names) == 1:
+            return obj.names[0]
+        if name == "__name__" and isinstance(obj, FuncRef) and obj.cls:
+            return obj.cls.split(".")[-1]
         if isinstance(obj, Inst):
             if name in obj.attrs:
                 return obj.attrs[name]
@@ -787,7 +816,7 @@ class Frame:
                     return r
             if obj.pytype == "Token" and name in ("upper", "lower", "strip", "startswith", "endswith"):
                 return FuncRef(None, builtin="method:" + name, self_obj=obj.attrs.get("value"))
-            if obj.pytype == "Logger" or (I.stubs.get("hook:method") and name in getattr(obj, "methods", ())):
+            if obj.pytype == "Logger" or name in getattr(obj, "methods", ()):
                 return FuncRef(None, builtin="method:" + name, self_obj=obj)
             raise PyExc("AttributeError", (f"{obj.label}.{name}",), node)
         if isinstance(obj, ModRef):
@@ -877,7 +906,7 @@ class Frame:
                 if kk in obj:
                     return obj[kk]
             except TypeError:
-                raise PyExc("TypeError", ("unhashable",), node)
+                raise really_unhashable(kk, node)
             raise PyExc("KeyError", (kk,), node)
         if isinstance(obj, ReprDict):
             kk = I.dict_key(obj, k)
@@ -1156,7 +1185,7 @@ class Frame:
             try:
                 return k in coll
             except TypeError:
-                raise PyExc("TypeError", ("unhashable",))
+                raise really_unhashable(k, None)
         if isinstance(coll, ReprDict):
             k = I.dict_key(coll, item)
             if any(a == k for a, _ in coll.items_):
@@ -1371,6 +1400,24 @@ def _repr_container(self: "Frame", v: Any) -> SStr:
 
 
 Frame.repr_container = _repr_container  # type: ignore[attr-defined]
+
+
+class _LiveList:
+    """Python iterates a list by index over the live object: removing or inserting elements in the
+    loop body shifts what the following iterations see."""
+
+    def __init__(self, lst: list):
+        self.lst = lst
+
+    def __iter__(self):
+        i = 0
+        n = 0
+        while i < len(self.lst):
+            n += 1
+            if n > 100000:
+                raise AnalysisError("list grows while it is iterated")
+            yield self.lst[i]
+            i += 1
 
 
 class OpaqueRun(SStr):
